@@ -536,7 +536,7 @@ def suite_apply_fn(ctx: Ctx, scale: float = 1.0) -> None:
                     fcs = {finding_class(eng, cts[c], cols[c][1], ft, p, impl if len(applicable) == 1 else _single(E, eng, cols, c, ft, p), oracle_rows(cols[c][1], ft, p)) for c, ft, p in applicable}
                     fcs.discard(None)
                     # a combination is covered only if one of its filters alone shows a known defect
-                    ctx.violation("apply_fn", case, f"{eng}: applying {applicable} returned {impl}, rows satisfying all applicable filters are {expected}", impl, expected,
+                    ctx.violation("apply_fn", case, f"{eng}: filters {ordered_specs} with exposed columns {exposed}: returned {impl}, rows satisfying all applicable filters are {expected}", impl, expected,
                                   finding_class=(sorted(fcs)[0] if fcs else None))  # fmt: skip
         if len(reqs) > 3000:
             flush(ctx, reqs, pend)
@@ -893,22 +893,38 @@ def suite_e2e_time(ctx: Ctx, scale: float = 1.0) -> None:
         srt = sorted(instants)
         ev_from, ev_to = srt[lo_i].replace(microsecond=srt[lo_i].microsecond), srt[hi_i]  # bounds ON data points (boundary inclusivity)
         excl = rng.choice([True, False])
+        # optionally a validity (time travel) range on a second column
+        with_valid = rng.random() < 0.4
+        vinst = [base + dtm.timedelta(seconds=step * rng.randrange(nrows)) for _ in range(nrows)]
+        vcol: List[Any] = [iso_utc(t) for t in vinst]
+        vs = sorted(vinst)
+        v_from, v_to = vs[rng.randrange(nrows) // 2], vs[-1 - rng.randrange(nrows) // 3]
+        if v_from > v_to:
+            v_from, v_to = v_to, v_from
         for eng in ["py", "pa", "pdobj", "pd"]:
-            z1, z2 = zoneinfo.ZoneInfo(rng.choice(zones)), zoneinfo.ZoneInfo(rng.choice(zones))
-            tf = {"event_from": ev_from.astimezone(z1), "event_to": ev_to.astimezone(z2), "max_exclusive": excl}
+            z1, z2, z3, z4 = (zoneinfo.ZoneInfo(rng.choice(zones)) for _ in range(4))
+            tf: Dict[str, Any] = {"event_from": ev_from.astimezone(z1), "event_to": ev_to.astimezone(z2), "max_exclusive": excl}
             g_cols = {"g_v": ("int", [10 * k for k in range(nrows)]), "reference_time": ("str", col)}
+            if with_valid:
+                tf.update({"valid_from": v_from.astimezone(z3), "valid_to": v_to.astimezone(z4)})
+                g_cols["time_travel_filter"] = ("str", vcol)
             h_cols = {"h_w": ("int", [0, 7])}
             impl = run_e2e(eng, g_cols, h_cols, ["g_v", "h_w"], [], time_filter=tf)
             case = {"eng": eng, "col": col, "from": tf["event_from"].isoformat(), "from_zone": str(z1), "to": tf["event_to"].isoformat(), "to_zone": str(z2), "max_exclusive": excl}
-            ctx.case("e2e_time", case, True, engine=eng, e2e_outcome="ok" if "ok" in impl else impl["err"])
+            if with_valid:
+                case.update({"valid_col": vcol, "valid_from": tf["valid_from"].isoformat(), "valid_to": tf["valid_to"].isoformat()})
+            ctx.case("e2e_time", case, True, engine=eng, time_travel=with_valid, e2e_outcome="ok" if "ok" in impl else impl["err"])
             # oracle on INSTANTS (not on texts): from <= t, and t < to or t <= to as flagged; null never satisfies
             keep = []
-            for k, s in enumerate(col):
-                if s is None:
+            for k, s_ in enumerate(col):
+                if s_ is None:
                     continue
-                t = dtm.datetime.fromisoformat(s)
-                if ev_from <= t and (t < ev_to if excl else t <= ev_to):
-                    keep.append(k)
+                t = dtm.datetime.fromisoformat(s_)
+                if not (ev_from <= t and (t < ev_to if excl else t <= ev_to)):
+                    continue
+                if with_valid and not (v_from <= vinst[k] and (vinst[k] < v_to if excl else vinst[k] <= v_to)):
+                    continue
+                keep.append(k)
             exp = {"G": [10 * k for k in keep], "H": [0, 7]}
             got: Any = impl
             if "ok" in impl:
@@ -917,7 +933,7 @@ def suite_e2e_time(ctx: Ctx, scale: float = 1.0) -> None:
                 fc = "pandas-default-str-column-index" if eng == "pd" and impl.get("err") == "key" else None
                 if eng == "py" and impl.get("at") == "empty" and not keep:
                     fc = "pythondict-empty-result-raises"
-                ctx.violation("e2e_time", case, f"time filter [{case['from']} .. {case['to']}{')' if excl else ']'} on {eng}: returned {got}, expected {exp}", got, exp, finding_class=fc)
+                ctx.violation("e2e_time", case, f"time filter [{case['from']} .. {case['to']}{')' if excl else ']'}{' + validity range' if with_valid else ''} on {eng}: returned {got}, expected {exp}", got, exp, finding_class=fc)
 
 
 # --------------------------------------------------------------------------------------
